@@ -316,7 +316,9 @@ impl ParsedPacket {
             debug_assert!(!self.maybe_compressed);
         }
         let rr_len = rr.packet.len();
-        if DNS_MAX_UNCOMPRESSED_SIZE - self.packet().len() < rr_len {
+        let packet_len = self.packet().len();
+        if packet_len > DNS_MAX_UNCOMPRESSED_SIZE || DNS_MAX_UNCOMPRESSED_SIZE - packet_len < rr_len
+        {
             bail!(DSError::PacketTooLarge)
         }
         self.rrcount_inc(section)?;
